@@ -136,9 +136,15 @@ func gen(t *rapid.T) Case {
 		c.Declared.Wrong = rapid.IntRange(0, 3).Draw(t, "wrongFlavour")
 		c.Declared.NoSize = rapid.IntRange(0, 3).Draw(t, "wrongNoSize") == 0
 		c.Declared.Delta = rapid.IntRange(0, 64).Draw(t, "wrongPos")
+		c.Declared.SizeOfOther = rapid.Bool().Draw(t, "sizeOfOther")
 	case "size-small", "size-large":
 		c.Declared.Delta = rapid.OneOf(rapid.Just(1), rapid.IntRange(1, 70)).Draw(t, "sizeDelta")
 		c.Declared.NoDigest = rapid.IntRange(0, 2).Draw(t, "sizeNoDigest") == 0
+	}
+
+	// inline data field of the descriptor
+	if rare(t, "descData", 2) {
+		c.Declared.Data = rapid.SampledFrom([]string{"named", "named", "stream", "wrong-bytes", "wrong-length"}).Draw(t, "descDataKind")
 	}
 
 	// source
